@@ -163,14 +163,24 @@ def scan_case(c):
   xs = jnp.asarray(np.array(c['xs']), dtype=jnp.int64)
   c0 = jnp.asarray(c['c0'], dtype=jnp.int64)
 
+  def layout_probe(m):
+    # what the body can see of the LAYOUT of its Variables: a position-weighted sum over the row-major entries of every Variable
+    tot = jnp.asarray(0, dtype=jnp.int64)
+    for v in c['vars']:
+      a = getvar(m, v['path']).value.reshape(-1)
+      tot = tot + jnp.sum(a * (jnp.arange(a.shape[0], dtype=jnp.int64) % 7 + 1))
+    return tot
+
   def f(m, carry, x):
-    return run(m, x, carry)
+    probe = layout_probe(m)
+    carry, y = run(m, x, carry)
+    return carry, (y, probe)
   m, objs = build(c['vars'])
   specs = specs_of(c, m, objs)
 
   def impl():
-    carry, ys = nnx.scan(f, in_axes=(state_axes(c['sa']), nnx.Carry, 0), out_axes=(nnx.Carry, 0), reverse=c['reverse'])(m, c0, xs)
-    return {'carry': int(carry), 'ys': [int(z) for z in np.asarray(ys)], 'vals': enc_vals(m, c, specs),
+    carry, (ys, probes) = nnx.scan(f, in_axes=(state_axes(c['sa']), nnx.Carry, 0), out_axes=(nnx.Carry, 0), reverse=c['reverse'])(m, c0, xs)
+    return {'carry': int(carry), 'ys': [int(z) for z in np.asarray(ys)], 'probes': [int(z) for z in np.asarray(probes)], 'vals': enc_vals(m, c, specs),
             'same_objects': all(getvar(m, v['path']) is o for v, o in zip(c['vars'], objs))}
 
   def eager():
@@ -179,7 +189,7 @@ def scan_case(c):
       raise ValueError('invalid spec')
     n = len(c['xs'])
     order = list(range(n))[::-1] if c['reverse'] else list(range(n))
-    carry, ys = c0, [0] * n
+    carry, ys, probes = c0, [0] * n, [0] * n
     for i in order:
       whole = {}
       for j, (v, s) in enumerate(zip(c['vars'], specs)):
@@ -187,14 +197,15 @@ def scan_case(c):
           var = getvar(m2, v['path'])
           whole[j] = var.value
           var.value = jnp.take(var.value, i, axis=s)
-      carry, y = f(m2, carry, xs[i])
+      carry, (y, pr) = f(m2, carry, xs[i])
       ys[i] = int(y)
+      probes[i] = int(pr)
       for j, (v, s) in enumerate(zip(c['vars'], specs)):
         if isinstance(s, int):
           var = getvar(m2, v['path'])
           w = jnp.moveaxis(whole[j], s, 0).at[i].set(var.value)
           var.value = jnp.moveaxis(w, 0, s)
-    return {'carry': int(carry), 'ys': ys, 'vals': enc_vals(m2, c, specs), 'same_objects': True}
+    return {'carry': int(carry), 'ys': ys, 'probes': probes, 'vals': enc_vals(m2, c, specs), 'same_objects': True}
   return {'impl': safe(impl), 'eager': safe(eager), 'specs': specs}
 
 
